@@ -32,16 +32,17 @@ def run(ctx):
         for _ in range((40000 if thorough else 2500) // (1 if n == 4 else 2)):
             cases.append((list(rng.choice(orders)), rng.choice(es), rng.choice(es)))
     driver.run_cases(
-        ctx, 'obdd-ops', 'vf.rtc.bdd_rtc', 'check_ops_case', cases,
+        ctx, 'obdd-ops', 'vf.rtc.bdd_rtc', 'check_ops_case', bdd_scope.rename_cases(cases),
         rule='expression pairs: all pairs of depth<=1 expressions over <=2 variables x all orderings; sampled pairs of depth<=3 expressions over 3-4 '
              'variables x all 6/24 orderings; for each pair &,|,^,~ and restrict(v,b) for every v and b in {0,1,False,True}; truth tables on all '
-             'assignments, node walk for ordering/reducedness, variables() against the semantic support; distinct by literal')
+             'assignments, node walk for ordering/reducedness, variables() against the semantic support; every second case over variable names with several '
+             'characters (x1,x10,x9,x2 / req,ack,busy,done / not_a,and1,True_x,or_ / B,a_,_c,dd); distinct by literal')
     g = []
     for n in (1, 2, 3, 4):
         vs = bdd_scope.VARS[:n]
         lv = bdd_scope.exprs(2, vs, rng, cap=400)
         for e in rng.sample(lv[1] + lv[2], 60):
             g.append((list(rng.sample(vs, n)), e))
-    driver.run_cases(ctx, 'ordering-guards', 'vf.rtc.bdd_rtc', 'check_ordering_guard_case', g,
+    driver.run_cases(ctx, 'ordering-guards', 'vf.rtc.bdd_rtc', 'check_ordering_guard_case', bdd_scope.rename_cases(g),
                      rule='different orderings / missing variable / non-OBDD operand raise RuntimeError/TypeError')
     return deductive.level_for(ctx, 'C17'), CMD
